@@ -7,6 +7,7 @@ import GoZero.Extracted.C11
 import GoZero.C11.Model
 import GoZero.C11.Containers
 import GoZero.C11.DriverSeq
+import GoZero.C11.Api
 namespace GoZero.C11.Tie
 open GoZero.Extracted.C11
 
@@ -369,5 +370,82 @@ theorem tie_constructors2 :
     sqlxNewStmts.getD 2 "" = "inserter := &dbInserter{ sqlConn: sqlConn, stmt: bkStmt, }" ∧
     sqlxNewStmts.getD 3 "" = "return &BulkInserter{ executor: executors.NewPeriodicalExecutor(flushInterval, inserter), inserter: inserter, stmt: bkStmt, }, nil" ∧
     tickerCalls = ["pe.newTicker(pe.interval)"] := by decide
+
+/-! ### SEMANTIC tie of the public constructors: option records, defaults, option closures and forwarded arguments,
+translated from the source (extract/c11.go: c11RecordDef / c11RecordLit / c11OptionSetter / c11Forward), equal to
+Api.lean FOR ALL option values and ALL option lists -/
+
+def bulkX (o : BulkOptions) : BulkOptionsX := { cachedTasks := o.cachedTasks, flushInterval := o.flushInterval }
+def chunkX (o : ChunkOptions) : ChunkOptionsX := { chunkSize := o.chunkSize, flushInterval := o.flushInterval }
+
+/-- the extracted closure of an option -/
+def bulkOptX (o : BulkOptionsX) : BulkOpt → BulkOptionsX
+  | .tasks n => withBulkTasksFn o n
+  | .interval d => withBulkIntervalFn o d
+def chunkOptX (o : ChunkOptionsX) : ChunkOpt → ChunkOptionsX
+  | .bytes n => withChunkBytesFn o n
+  | .interval d => withFlushIntervalFn o d
+
+/-- defaults and option closures: `newBulkOptions()` is the record of the package constants, every `With*` writes its
+argument into its own field and leaves the other alone -/
+theorem tie_options_sem (bo : BulkOptions) (co : ChunkOptions) (n : Int) :
+    newBulkOptionsFn = bulkX newBulkOptions ∧ newChunkOptionsFn = chunkX newChunkOptions ∧
+    withBulkTasksFn (bulkX bo) n = bulkX (BulkOpt.apply bo (.tasks n)) ∧
+    withBulkIntervalFn (bulkX bo) n = bulkX (BulkOpt.apply bo (.interval n)) ∧
+    withChunkBytesFn (chunkX co) n = chunkX (ChunkOpt.apply co (.bytes n)) ∧
+    withFlushIntervalFn (chunkX co) n = chunkX (ChunkOpt.apply co (.interval n)) :=
+  ⟨rfl, rfl, rfl, rfl, rfl, rfl⟩
+
+theorem bulkX_foldl (opts : List BulkOpt) (o : BulkOptions) :
+    opts.foldl bulkOptX (bulkX o) = bulkX (opts.foldl BulkOpt.apply o) := by
+  induction opts generalizing o with
+  | nil => rfl
+  | cons a rest ih =>
+    cases a with
+    | tasks n => exact ih (BulkOpt.apply o (.tasks n))
+    | interval d => exact ih (BulkOpt.apply o (.interval d))
+
+theorem chunkX_foldl (opts : List ChunkOpt) (o : ChunkOptions) :
+    opts.foldl chunkOptX (chunkX o) = chunkX (opts.foldl ChunkOpt.apply o) := by
+  induction opts generalizing o with
+  | nil => rfl
+  | cons a rest ih =>
+    cases a with
+    | bytes n => exact ih (ChunkOpt.apply o (.bytes n))
+    | interval d => exact ih (ChunkOpt.apply o (.interval d))
+
+/-- **the constructors, end to end from the source**: start from the extracted defaults, apply the extracted option
+closures in the order of the list (`for _, opt := range opts { opt(&options) }`), forward the extracted fields to the
+container literal and to `NewPeriodicalExecutor`: that is `newBulkExecutor` / `newChunkExecutor` of Api.lean, for
+every option list -/
+theorem tie_constructors_sem (bo : List BulkOpt) (co : List ChunkOpt) :
+    newBulkThresholdFn (bo.foldl bulkOptX newBulkOptionsFn) = (newBulkExecutor bo).threshold ∧
+    newBulkIntervalFn (bo.foldl bulkOptX newBulkOptionsFn) = (newBulkExecutor bo).interval ∧
+    newChunkThresholdFn (co.foldl chunkOptX newChunkOptionsFn) = (newChunkExecutor co).threshold ∧
+    newChunkIntervalFn (co.foldl chunkOptX newChunkOptionsFn) = (newChunkExecutor co).interval ∧
+    newBulkRanges = ["for _, opt := range opts { opt(&options) }"] ∧
+    newChunkRanges = ["for _, opt := range opts { opt(&options) }"] := by
+  have hb : bo.foldl bulkOptX newBulkOptionsFn = bulkX (bo.foldl BulkOpt.apply newBulkOptions) := bulkX_foldl bo newBulkOptions
+  have hc : co.foldl chunkOptX newChunkOptionsFn = chunkX (co.foldl ChunkOpt.apply newChunkOptions) := chunkX_foldl co newChunkOptions
+  refine ⟨?_, ?_, ?_, ?_, by decide, by decide⟩
+  · rw [hb]; rfl
+  · rw [hb]; rfl
+  · rw [hc]; rfl
+  · rw [hc]; rfl
+
+/-- delegating entry points WITH their argument lists: the wrappers pass the task on unchanged (`ChunkExecutor.Add`
+wraps task and declared size into one chunk), `Flush` / `Wait` call `Flush` / `Wait` (not each other), the sqlx
+inserter adds the formatted value it was given, the shutdown listener flushes, `executeTasks` runs the container's
+`Execute` on the SAME batch under `threading.RunSafe` -/
+theorem tie_delegation_args :
+    bulkAddCalls = ["be.executor.Add(task)"] ∧ bulkFlushCalls = ["be.executor.Flush()"] ∧
+    bulkWaitCalls = ["be.executor.Wait()"] ∧
+    chunkAddCalls = ["ce.executor.Add(chunk{ val: task, size: size, })"] ∧
+    chunkFlushCalls = ["ce.executor.Flush()"] ∧ chunkWaitCalls = ["ce.executor.Wait()"] ∧
+    sqlxInsertCalls = ["format(bi.stmt.valueFormat, args...)", "bi.executor.Add(value)"] ∧
+    sqlxFlushCalls = ["bi.executor.Flush()"] ∧ sqlxUpdateOrDeleteCalls = ["bi.executor.Flush()", "fn()"] ∧
+    newShutdownCalls = ["proc.AddShutdownListener(func() { executor.Flush() })", "executor.Flush()"] ∧
+    executeTasksCalls = ["pe.doneExecution()", "pe.hasTasks(tasks)",
+      "threading.RunSafe(func() { pe.container.Execute(tasks) })", "pe.container.Execute(tasks)"] := by decide
 
 end GoZero.C11.Tie
